@@ -17,10 +17,11 @@ def run(chk, program, tier):
     for r, t in (('BUF-BOUND', 'three-premise buffer bound'), ('BUF-PROGRESS', 'every non-exiting iteration consumes a packet'), ('SER-DELIVER', 'every complete window behind a marker reaches the decoder'), ('SCAN-PROGRESS', 'the scan loop cannot spin'),
                  ('CSUM-DOM', 'checksum comparison dominates decoding'), ('CSUM-COVER', 'checksum covers positions 2..18'), ('SER-CONST', 'marker / length constants agree')):
         chk.rule(r, t)
-    r = K.buf_rules(chk, program)
-    if r:
-        f, P, marker = r
-        K.ser_const(chk, program, P, marker)
+    from .. import rules_serial as RS
+    r = RS.decide(chk, program, tier, ['BUF-BOUND', 'BUF-PROGRESS', 'SER-DELIVER', 'SCAN-PROGRESS'])
+    # marker and packet length: the protocol's (AA 55, 20 bytes -- what the explored streams are made of) unless the structural reading names the client's own
+    P, marker = (r[1], r[2]) if r else (20, b'\xaa\x55')
+    K.ser_const(chk, program, P, marker)
     K.csum_dom(chk, program)
     from .. import wire
     ok, found = wire.checksum_is_plain_sum_2_19(program)
